@@ -467,5 +467,117 @@ impl<const BITS: usize, const LIMBS: usize> Uint<BITS, LIMBS> {
 //@ end
 }
 
+// ---- src/algorithms/shift.rs: in-place sub-limb shifts of a limb slice ----
+//@ extract src/algorithms/shift.rs fn shift_left_small rewrite="for limb in limbs {" => "for limb in limbs.iter_mut() {" #1
+pub fn shift_left_small(limbs: &mut [u64], amount: usize) -> /*+*/(r:/*-*/ u64/*+*/)
+    requires amount < 64
+    ensures
+        final(limbs).len() == old(limbs).len(),
+        lvr(final(limbs)@, 0, old(limbs).len() as int) + r as int * bp(old(limbs).len() as int)
+            == lvr(old(limbs)@, 0, old(limbs).len() as int) * pow2(amount as nat),
+        (r as int) < pow2(amount as nat),/*-*/
+{
+    vassert (amount < 64 );
+    let mut overflow = 0;
+    /*+*/let ghost len_ = limbs.len() as int;
+    let ghost old_s = limbs@;
+    let ghost fin = final(limbs)@;
+    let ghost y: u64 = 0;
+    let ghost pa = pow2(amount as nat) as int;
+    proof {
+        lemma_shl_word(0, 0, amount);
+        assert(0 * pa == 0) by(nonlinear_arith);
+        assert(0 * bp(0) == 0) by(nonlinear_arith);
+    }/*-*/
+    for limb in /*+*/it:/*-*/ limbs.iter_mut()
+        /*+*/invariant
+            len_ == old_s.len(), fin.len() == len_, it.seq().len() == len_, amount < 64, pa == pow2(amount as nat),
+            forall|j: int| 0 <= j < len_ ==> *(#[trigger] it.seq()[j]) == old_s[j],
+            forall|j: int| 0 <= j < len_ ==> *final(#[trigger] it.seq()[j]) == fin[j],
+            0 <= it.index@ <= len_,
+            overflow == (y >> (63 - amount) as usize) >> 1usize,
+            lvr(fin, 0, it.index@) + overflow as int * bp(it.index@) == lvr(old_s, 0, it.index@) * pa,/*-*/
+    {
+        /*+*/let ghost k = it.index@;
+        let ghost x = *limb; let ghost c0 = overflow as int;/*-*/
+        let value = (*limb << amount) | overflow;
+        overflow = (*limb >> (63 - amount)) >> 1;
+        *limb = value;
+        /*+*/proof {
+            assert(x == old_s[k]); assert(fin[k] == value);
+            lemma_shl_word(x, y, amount);
+            y = x;
+            lemma_lvr_push(fin, 0, k); lemma_lvr_push(old_s, 0, k);
+            assert(bp(k + 1) == B * bp(k));
+            let R0 = lvr(fin, 0, k); let A0 = lvr(old_s, 0, k);
+            assert((R0 + bp(k) * value as int) + overflow as int * (B * bp(k)) == (A0 + bp(k) * x as int) * pa) by(nonlinear_arith)
+                requires R0 + c0 * bp(k) == A0 * pa, value as int + overflow as int * B == x as int * pa + c0;
+        }/*-*/
+    }
+    /*+*/proof { assert(final(limbs)@ == fin); lemma_shl_word(0, y, amount); }/*-*/
+    overflow
+}
+//@ end
+
+//@ extract src/algorithms/shift.rs fn shift_right_small
+pub fn shift_right_small(limbs: &mut [u64], amount: usize) -> /*+*/(r:/*-*/ u64/*+*/)
+    requires amount < 64
+    ensures
+        final(limbs).len() == old(limbs).len(),
+        lvr(old(limbs)@, 0, old(limbs).len() as int) * pow2((64 - amount) as nat)
+            == lvr(final(limbs)@, 0, old(limbs).len() as int) * B + r as int,/*-*/
+{
+    vassert (amount < 64 );
+    let mut overflow = 0;
+    /*+*/let ghost len_ = limbs.len() as int;
+    let ghost old_s = limbs@;
+    let ghost fin = final(limbs)@;
+    let ghost y: u64 = 0;
+    let ghost pa = pow2(amount as nat) as int;
+    let ghost pc = pow2((64 - amount) as nat) as int;
+    proof {
+        lemma_shr_word(0, 0, amount);
+        lemma_pow2_pos(amount as nat);
+        lemma_small_mod(0, pa as nat);
+        assert(0 * pc == 0) by(nonlinear_arith);
+        assert(0 * B + 0 == 0) by(nonlinear_arith);
+        lemma_pow2_adds(amount as nat, (64 - amount) as nat); lemma_pow2_64();
+    }/*-*/
+    for limb in /*+*/it:/*-*/ limbs.iter_mut().rev()
+        /*+*/invariant
+            len_ == old_s.len(), fin.len() == len_, it.seq().len() == len_, amount < 64,
+            pa == pow2(amount as nat), pc == pow2((64 - amount) as nat), pa * pc == B, pa > 0,
+            forall|j: int| 0 <= j < len_ ==> *(#[trigger] it.seq()[j]) == old_s[len_ - 1 - j],
+            forall|j: int| 0 <= j < len_ ==> *final(#[trigger] it.seq()[j]) == fin[len_ - 1 - j],
+            0 <= it.index@ <= len_,
+            overflow == (y << (63 - amount) as usize) << 1usize,
+            lvr(old_s, len_ - it.index@, len_) * pc == lvr(fin, len_ - it.index@, len_) * B + overflow as int,/*-*/
+    {
+        /*+*/let ghost k = it.index@;
+        let ghost i = len_ - 1 - k;
+        let ghost x = *limb; let ghost c0 = overflow as int;/*-*/
+        let value = (*limb >> amount) | overflow;
+        overflow = (*limb << (63 - amount)) << 1;
+        *limb = value;
+        /*+*/proof {
+            assert(x == old_s[i]); assert(fin[i] == value);
+            lemma_shr_word(x, y, amount);
+            lemma_shr_word(0, x, amount);
+            let a = lvr(old_s, i + 1, len_); let f = lvr(fin, i + 1, len_);
+            assert(lvr(old_s, i, len_) == x as int + B * a);
+            assert(lvr(fin, i, len_) == value as int + B * f);
+            lemma_fundamental_div_mod(x as int, pa);
+            let q = (x as int) / pa; let rm = (x as int) % pa;
+            let cq = (y as int) % pa;
+            assert((x as int + B * a) * pc == (value as int + B * f) * B + rm * pc) by(nonlinear_arith)
+                requires a * pc == f * B + c0, c0 == cq * pc, value as int == q + cq * pc, x as int == pa * q + rm, pa * pc == B;
+            y = x;
+        }/*-*/
+    }
+    /*+*/proof { assert(final(limbs)@ == fin); }/*-*/
+    overflow
+}
+//@ end
+
 } // verus!
 fn main() {}
